@@ -309,6 +309,57 @@ theorem live_format_eq_std_partial (tb : List TbEntry) (sys : Option Int) (etype
   rw [live_frames_eq_extract_tb tb none sys h]
   exact format_eq_std_partial _ etype msg hr
 
+/-! ### the exception's display name; sessions of several captures -/
+
+/-- ExceptionInfo.from_exc_info / tbutils.format_exception_only name the exception class exactly as the
+    traceback module does, for every `__module__` (also one that is not a str) and `__qualname__` -/
+theorem type_str_eq_std (t : ExcType) : typeStr t = stdTypeStr t := by
+  obtain ⟨m, q⟩ := t
+  cases m with
+  | none => simp [typeStr, stdTypeStr]
+  | some m =>
+    by_cases h1 : m = "__main__".toList
+    · subst h1; simp [typeStr, stdTypeStr, plainMods]
+    · by_cases h2 : m = "builtins".toList
+      · subst h2; simp [typeStr, stdTypeStr, plainMods]
+      · simp [typeStr, stdTypeStr, plainMods, h1, h2]
+
+/-- the display name is the qualified name: two classes are printed alike only if their `__qualname__`s agree
+    up to the module prefix - in particular classes of one module with the same bare `__name__` but different
+    `__qualname__` (`Lexer.Error`, `Parser.Error`) are told apart -/
+theorem type_str_separates (m : Option Str) (q1 q2 : Str) (h : typeStr ⟨m, q1⟩ = typeStr ⟨m, q2⟩) : q1 = q2 := by
+  cases m with
+  | none => simpa [typeStr] using h
+  | some m =>
+    unfold typeStr at h
+    simp only at h
+    split at h
+    · exact h
+    · exact List.cons.inj (List.append_cancel_left h) |>.2
+
+/-- every capture of a session - whatever was captured before it, by whichever entry point - is reported as the
+    traceback module reports it: type name, exception-only text (final newline aside) and print_exception text -/
+theorem session_eq_std (caps : List Capture) :
+    (sessionB caps).map (fun r => (r.1, r.2.1 ++ ['\n'], r.2.2)) = sessionS caps := by
+  simp only [sessionB, sessionS, List.map_map]
+  apply List.map_congr_left
+  intro c _
+  simp only [Function.comp, type_str_eq_std, exc_only_eq_std]
+  simp [printExcOnly, stdExcOnly]
+
+/-- ... in particular the report of a capture does not depend on the captures before it -/
+theorem session_history_independent (pre : List Capture) (c : Capture) :
+    (sessionB (pre ++ [c])).getLast? = (sessionB [c]).getLast? := by
+  simp [sessionB]
+
+example : sessionB [(⟨some "bvm0".toList, "Lexer.Error".toList⟩, "a: b".toList),
+                    (⟨some "bvm0".toList, "Parser.Error".toList⟩, []),
+                    (⟨some "builtins".toList, "KeyError".toList⟩, "'k'".toList), (⟨none, "E".toList⟩, "x".toList)]
+    = [("bvm0.Lexer.Error".toList, "bvm0.Lexer.Error: a: b".toList, "bvm0.Lexer.Error: a: b\n".toList),
+       ("bvm0.Parser.Error".toList, "bvm0.Parser.Error".toList, "bvm0.Parser.Error\n".toList),
+       ("KeyError".toList, "KeyError: 'k'".toList, "KeyError: 'k'\n".toList),
+       ("<unknown>.E".toList, "<unknown>.E: x".toList, "<unknown>.E: x\n".toList)] := by decide +kernel
+
 def exTb : List TbEntry :=
   [⟨"/a b/é.py".toList, 3, "<module>".toList, 0, ⟨.pinned "top()\n".toList, none, none⟩⟩,
    ⟨"/p/plugin.py".toList, 9, "middle".toList, 1, ⟨.stamped 10 1 "old\n".toList, some (12, 2, "    raise e\n".toList), none⟩⟩,
